@@ -49,17 +49,17 @@ CHECKS = {
         category='model_checking', design_ref='DESIGN.md 4/C04',
         technique='explicit enumeration of all document terms <= K nodes x all (width, ribbon) pairs x both strategies on the real engine; membership of each observed SDoc stream in the fully enumerated layout set of the reference semantics',
         text='Bounded-exhaustive model checking of the real layout engine against an executable denotational semantics of the combinator algebra: every document up to the node bound, every integer width/ribbon pair up to the flat length + 2 and both strategies are executed, and each output must be a member of the enumerated layout set. A for-all statement over documents and configurations is exactly what exhaustive small-scope enumeration decides; every explored trace is an implementation trace.',
-        note='trusted: the reference semantics in mc/docalg.py (about 100 lines, written from the property statement); bound: documents <= 5 (quick) / 6 (thorough) nodes plus a reduced alphabet one node deeper; documents outside the bound are not covered'),
+        note='trusted: the reference semantics in mc/docalg.py (about 100 lines, written from the property statement); bound: documents <= 5 (quick) / 6 (thorough) nodes over 9 leaves (incl. a double-width character), 8 unary combinators (incl. a negative nest), flat_choice, concat, fill; plus seven contexts of 6-11 nodes filled with every pair of small terms, a reduced alphabet one node deeper, and a render with non-default newline/separator before every default render; documents outside these spaces are not covered'),
     'C05': dict(
         category='model_checking', design_ref='DESIGN.md 4/C05',
         technique='explicit enumeration of all classic-algebra documents <= K nodes x all (width, ribbon) pairs x both strategies on the real engine; per-group decisions recovered through the enumerated reference layout set; line-length invariant checked for every necessarily-flat group',
         text='Every classic-algebra document up to the node bound is laid out by the real engine at every integer width/ribbon pair; the flat/broken decision of each group is recovered from the output through the reference semantics (flat in every consistent assignment), and for each such group the line it sits on must end within min(width, indentation + ribbon). An off-by-one in the fitting predicate or a wrong ribbon formula shows at width 1 already, which exhaustive small-scope enumeration reaches and pinned examples do not.',
-        note='trusted: reference semantics in mc/docalg.py and the decision recovery in mc/checks/_decisions.py; bound: <= 6 nodes (quick) / 7 (thorough); fill and user flat_choice are outside the property'),
+        note='trusted: reference semantics in mc/docalg.py and the decision recovery in mc/checks/_decisions.py; bound: <= 6 nodes (quick) / 7 (thorough) over the classic algebra plus annotate, and scaled documents (one group around 50-700 words on pages up to 2500 columns); fill and user flat_choice are outside the property'),
     'C06': dict(
         category='model_checking', design_ref='DESIGN.md 4/C06',
         technique='same exhaustive enumeration as C05; every necessarily-broken group without a forced break must be justified by a reference linearisation of its continuation (overflow, smart look-ahead overflow, or a later always_break); plus exhaustive width sweep around the one-line length of every corpus value',
         text='For every enumerated document, configuration and strategy, each group that the output proves broken and that contains no forced break must have a justification computed on the reference term (not by calling the implementation predicate). For values, every corpus value whose unbounded rendering is one line of L columns must print as that line at all widths/ribbons in L..L+2, 2L, 200. Eager breaking (off-by-one at exact fit, ribbon applied from the wrong origin) yields valid text that no pinned test notices; the enumeration reaches exact-fit configurations for every small document.',
-        note='trusted: reference linearisation in mc/checks/_decisions.py (permissive where the statement is silent: a hoisted always_break later on the line also counts as justification); bound as C05'),
+        note='trusted: reference linearisation in mc/checks/_decisions.py (permissive where the statement is silent: a hoisted always_break later on the line also counts as justification); bound as C05; part 2 also lays the same document out narrow first and then at its one-line width'),
     'C12': dict(
         category='exploration', design_ref='DESIGN.md 4/C12',
         technique='deterministic step counting (sys.monitoring LINE events inside the package) over an enumerated grammar of input families at n, 2n, 4n, 8n; doubling ratio bounded by 8 and enforced as a step budget on the next run',
@@ -69,12 +69,12 @@ CHECKS = {
         category='model_checking', design_ref='DESIGN.md 4/C13',
         technique='exhaustive enumeration of all rooted object graphs <= 3 nodes (list / dict / tuple-holding-list, out-degree <= 2, self-loops, sharing) printed by the real code and compared, as ASTs, with a reference DFS carrying the on-path set; exhaustive re-print / aborted-print / pair histories for residue',
         text='Every rooted directed multigraph up to three nodes (plus out-degree-1 graphs on four nodes and ring/lollipop/diamond families up to eight nodes in the thorough tier) is printed under a watchdog; recursion markers are rewritten to node identifiers and the output must have exactly the AST of a reference DFS that marks back-edges only, so a marker on merely shared structure, or a missing one, is a structural difference. Histories (print twice; abort a print through a printer returning a non-Doc, then print again; g1, g2, g1 over all small pairs) must reproduce the first-call output, and a probe printer checks that the visited set has exactly the DFS depth.',
-        note='trusted: reference DFS (20 lines); identity through id() in the marker text; termination is decided by a 10 s watchdog per print'),
+        note='trusted: reference DFS (20 lines); identity through id() in the marker text; termination is decided by a 3 s periodic watchdog per print; also covered: dict values carrying comments (lazily re-rendered), OrderedDicts (printers that build temporaries), user objects whose printers derive their context, chains of 25/60 nested containers'),
     'C14': dict(
         category='fault_enumeration', design_ref='DESIGN.md 4/C14',
         technique='exhaustive single-fault (thorough: ordered double-fault) injection at every numbered printer invocation x 12 exception classes over all small trees of instrumented user objects with every comment / trailing_comment placement; differential oracle against the run in which that invocation returns repr(value)',
         text='One fault-free run numbers the printer invocations of a tree; then each invocation in turn raises each exception class, and the output must equal the output of the run where that invocation returns repr(value) (so every other part is exactly what it would have been), with exactly one warning naming the printer, an unaffected fault-free print afterwards, and ValueError for a non-Doc return. Every tree up to the node bound, every wrapper placement and every fault point is enumerated, which is what reaches the trailing-comment path where only TypeError used to be caught.',
-        note='trusted: the stub run as definition of containment; exception classes are a fixed list of Exception subclasses (BaseException-only classes are outside the statement); bound: trees <= 3 nodes single faults (quick), <= 4 nodes plus fault pairs (thorough)'),
+        note='trusted: the stub run as definition of containment; exception classes are a fixed list of Exception subclasses (BaseException-only classes are outside the statement); bound: trees <= 3 nodes single faults (quick), <= 4 nodes plus fault pairs (thorough); printer kinds: pretty_call, hand-built Doc, trailing_comment parameter, **kwargs, by-name base printer reached through a subclass; nothing is reset between runs'),
     'C15': dict(
         category='model_checking', design_ref='DESIGN.md 4/C15',
         technique='explicit-state BFS over all operation histories up to a depth bound on the real registries (76 operations on a 6-class lattice with multiple inheritance: register by class / name / predicate incl. an instance-dependent predicate, plain / flagged / comment-wrapped / nested prints, all is_registered flag combinations), states merged by a canonical (implementation, reference-model) abstraction and validated differentially, plus an unmerged exhaustive pass over all histories of length 3',
@@ -84,22 +84,22 @@ CHECKS = {
         category='exploration', design_ref='DESIGN.md 4/C17',
         technique='exhaustive enumeration of args/kwargs lists x callables x both call APIs, and of generated dataclass / attrs class definitions (fields x defaults x repr flags x frozen/slots variants x field names) x all default/other instances; AST-level oracle plus evaluation',
         text='A user type is printed through pretty_call and pretty_call_alt with every argument list of the bounded grammar and five kinds of callables; on the AST the callee must be the qualified name, positional and keyword arguments must appear in the given order and every argument subtree must equal the AST of that argument printed on its own. About 2 000 generated dataclass and attrs definitions are instantiated in every default/non-default combination; the keywords shown must be exactly the fields with repr enabled whose value differs from the default (or that have none), in declaration order, and evaluation must reconstruct an equal instance. One class per library and three instances are all the suite has.',
-        note='trusted: CPython ast/eval; class definitions rejected by the library itself are skipped and counted; bound: <= 3 fields, <= 3 positional and <= 3 keyword arguments'),
+        note='trusted: CPython ast/eval; class definitions rejected by the library itself are skipped and counted; bound: <= 3 fields (+ an attrs field whose default is derived from the instance), <= 3 positional and <= 3 keyword arguments incl. None/Ellipsis, kwargs passed as list/tuple/dict/OrderedDict/zip/generator, a redefinition of every class under the same qualified name'),
     'C18': dict(
         category='model_checking', design_ref='DESIGN.md 4/C18',
         technique='explicit-state search of the default-configuration state space (32 states x 243 set_default_config operations, all transitions executed on the real module) with a complete observation vector per state (3 probes x 3^6 explicit/default combinations x every entry point) against a dictionary-merge reference model',
         text='Every set_default_config operation is executed from every reachable default configuration and compared with a dict-update model (state, return value, get_default_config, no other key changed). In the states observed, every combination of explicit/defaulted settings is pushed through pformat, pprint (three end strings), cpprint with colour off, PrettyPrinter.pformat/pprint and pretty_repr; all must equal the reference text for the merged effective settings, and that text must be the same in every state and from a second history. No test calls set_default_config or PrettyPrinter at all.',
-        note='trusted: fully explicit pformat output as reference for its effective settings (cross-checked between states); quick observes the pristine state, the all-b state and a seed-rotated third of the 32 states, thorough all of them; a harness self-check fails the run if a setting is not observable through the probes'),
+        note='trusted: fully explicit pformat output as reference for its effective settings (cross-checked between states); quick observes the pristine state, the all-b state and a seed-rotated third of the 32 states, thorough all of them; a harness self-check fails the run if a setting is not observable through the probes; probes include a class whose printer is registered on an ABC it only virtually belongs to (pretty_repr) and a stream that is falsy while empty'),
     'C19': dict(
         category='model_checking', design_ref='DESIGN.md 4/C19',
         technique='explicit-state BFS over print histories from the restored cold registry snapshot, states read back from the real globals (pending by-name registrations, promoted classes, cached struct-sequence classes); in every state every corpus value is printed and compared with its first print in a fresh interpreter; deep input snapshots around every print; id() seam',
         text='Starting from the cold registries, the search prints every corpus value in every reachable warm-up state (all 2^7 combinations of the lazily initialised mechanisms are reached, so every order and repetition of first uses is covered up to state equivalence) and requires the text of the first print of that value in a fresh interpreter. Every print is bracketed by a canonical deep snapshot of the input (types, ordered contents, public attributes, aliasing) and repeated with id() perturbed inside the package, which turns dependence on allocation addresses into a deterministic difference. No test compares one value across two histories.',
-        note='trusted: subprocess reference with the same PYTHONHASHSEED; private (underscore) attributes of opaque objects are treated as caches, not as value; lazily normalised layout constants cannot be reset inside one interpreter - their cold case is the fresh-interpreter reference'),
+        note='trusted: subprocess reference with the same PYTHONHASHSEED; private (underscore) attributes of opaque objects are treated as caches, not as value; lazily normalised layout constants cannot be reset inside one interpreter - their cold case is the fresh-interpreter reference; a collision corpus (equal values of different types, the same text as str / bytes / path / subclass / key / value), all ordered pairs in-process and, for the collision subset, each in its own fresh interpreter; requests objects with the requests extra'),
     'C20': dict(
         category='model_checking', design_ref='DESIGN.md 4/C20',
         technique='stateless model checking of the real code: real threads under a deterministic cooperative scheduler (sys.settrace line events inside the package), all schedules up to a preemption bound enumerated depth-first over choice prefixes (iterative context bounding), result of every thread compared with the sequential run',
         text='Two or three real threads perform first-use and repeated pformat calls on a class registered by name, its subclass, a directly registered class, an unregistered object, a struct sequence and small containers; the scheduler can switch at every line boundary inside the package and the explorer enumerates every schedule with at most B preemptions (B = 1 at every line, B = 2 at the lines of functions that the source shows to touch shared mutable state, and B = 1 between the individual bytecodes of those functions in the quick tier; B = 2 everywhere / 3 at visible lines / 2 between bytecodes in the thorough tier). Locks found in the package are replaced by cooperative ones, so a lock-based variant neither hangs nor alarms. Every execution must return the sequential texts in every thread, raise nowhere and leave the registries in the sequential end state. The window between the membership test and the pop of the deferred registry is a few bytecodes wide - a stress test almost never hits it, a controlled schedule hits it deterministically.',
-        note='trusted: sys.settrace line-event delivery; switches inside functools / warnings / C code are not modelled (atomic), nor are free-threaded builds; visible lines are computed from the package AST, and the all-lines exploration at the lower bound validates that reduction; each schedule is replayable (run-length encoded) and the harness asserts that replaying the empty schedule twice gives identical observations'),
+        note='trusted: sys.settrace line/opcode event delivery; scheduling points are the line boundaries of the package and of functools.py (singledispatch); switches inside C code and other stdlib modules are not modelled, nor are free-threaded builds; visible lines are computed from the package AST, and the all-lines exploration at the lower bound validates that reduction; each schedule is replayable (run-length encoded) and the harness asserts that replaying the empty schedule twice gives identical observations'),
     'C16': dict(
         category='exploration', design_ref='DESIGN.md 4/C16',
         technique='exhaustive cross product of a value corpus x widths x every installed pygments style + the two bundled styles x three colour modes with colour forced on, and exhaustive enumeration of annotated documents up to a node bound; output decoded by an independent SGR state machine and compared per character with the annotation structure of the SDoc stream',
